@@ -34,7 +34,9 @@ def jobs(tier, seed):
                   P=dict(p_fail_cmd=0.45, nmax=5, p_items=0.05, p_retry=0.05), modes=["cancel", "pause"], name="sweep-fail-commands")
     # pause, resume before anything reports, pause again (the workflow is `resuming` with actions in flight)
     js += batches("ctl_sweep", scale(tier, 30, 800), scale(tier, 3, 25), gen="mix", p_loop=0.2, gseed=seed + 14,
-                  P=dict(p_intjoin=0.3, nmax=5), modes=["pause_resume_pause"], name="pause-resume-pause")
+                  P=dict(p_intjoin=0.3, nmax=5), modes=["pause_resume_pause", "pause_resume"], p_fail=0.3, name="pause-resume-pause")
+    js += family_slices("ctl_sweep", 4128, 24, tier, seed + 5, parts=12, gen="cshape", modes=["pause_resume"], p_fail=0.0,
+                        name="decision-shapes-pause-resume")
     # actions acknowledged with mixed statuses (running / scheduled / requested / delayed)
     js += batches("conduct", scale(tier, 100, 2000), scale(tier, 20, 100), gen="mix", gseed=seed + 15, P=dict(p_intjoin=0.3), scheds=2,
                   ack_chain="mixed", ctl=dict(req=0.1, max_req=3, reqs=["pausing", "paused", "resuming", "running", "canceling"]),
